@@ -38,6 +38,10 @@ def run(tier, seed, t0):
     jobs.append(Job("optim-tlwe-spread", "drv_c14", "optim", "spqlios-fma", ["--mode", "tlwe", "--N", "16,64,1024", "--k", "1,2", "--reps", max(3, reps // 3), "--seed", seed + 5, "--heapphase", 100]))
     jobs.append(Job("optim-extract-spread", "drv_c14", "optim", "spqlios-fma", ["--mode", "extract", "--N", "16,1024", "--k", "1,2", "--reps", 1, "--seed", seed + 5, "--heapphase", 100]))
     jobs.append(Job("debug-tlwe-spread", "drv_c14", "debug", "nayuki-portable", ["--mode", "tlwe", "--N", "64,1024", "--k", "1,2", "--reps", 2, "--seed", seed + 6, "--heapphase", 100]))
+    # ring degrees that are not powers of two (the quantifier says N in 2..1024; nothing in these operations needs a power of two)
+    jobs.append(Job("optim-tlwe-odd-degrees", "drv_c14", "optim", "spqlios-fma", ["--mode", "tlwe", "--N", "3,5,6,7,12,100,630,1000,1023", "--k", "1,2,3", "--reps", max(2, reps // 4), "--seed", seed + 8]))
+    jobs.append(Job("optim-extract-odd-degrees", "drv_c14", "optim", "spqlios-fma", ["--mode", "extract", "--N", "3,5,6,7,12,100,630,1000,1023", "--k", "1,2,3", "--reps", 2, "--seed", seed + 8]))
+    jobs.append(Job("debug-extract-odd-degrees", "drv_c14", "debug", "nayuki-portable", ["--mode", "extract", "--N", "3,6,100,1023", "--k", "1,2", "--reps", 1, "--seed", seed + 9]))
     jobs.append(Job("debug-tlwe", "drv_c14", "debug", "nayuki-portable",
                     ["--mode", "tlwe", "--N", "2,8,64,1024", "--k", "1,2,3", "--reps", 2, "--seed", seed + 1]))
     jobs.append(Job("debug-extract", "drv_c14", "debug", "nayuki-portable",
